@@ -147,6 +147,29 @@ def exec_steps(steps):
             else:
                 out, ws = _call(AtomGrid.from_preset, atnum=st["atnum"], preset=st["preset"], rgrid=rg, **kw)
             r = _err(out) if isinstance(out, Exception) else _atom(out)
+        elif op in ("atomgrid2", "pruned2"):
+            from grid.atomgrid import AtomGrid
+            rg = _rgrid(st["rpoints"])
+            kw = {"method": st["method"]} if "method" in st else {}
+            cont = {"array": np.array, "list": list}[st.get("container", "list")]
+            conv = lambda v: None if v is None else cont(v)
+            if op == "atomgrid2":
+                args = [rg]
+                if "degrees" in st:
+                    if st.get("positional"):
+                        args.append(conv(st["degrees"]))
+                    else:
+                        kw["degrees"] = conv(st["degrees"])
+                if "sizes" in st:
+                    kw["sizes"] = conv(st["sizes"])
+                out, ws = _call(AtomGrid, *args, **kw)
+            else:
+                if "d_sectors" in st:
+                    kw["d_sectors"] = conv(st["d_sectors"])
+                if "s_sectors" in st:
+                    kw["s_sectors"] = conv(st["s_sectors"])
+                out, ws = _call(AtomGrid.from_pruned, rg, st["radius"], r_sectors=st["r_sectors"], **kw)
+            r = _err(out) if isinstance(out, Exception) else _atom(out)
         elif op in ("molsize", "molpruned", "molpreset"):
             from grid.molgrid import MolGrid
             atnums = np.array(st["atnums"])
@@ -302,8 +325,27 @@ def same_object(route, m, kind, cont, req, times, which=0, nat=2):
         c = [(int(d), int(s)) for s, d in npts.items() if (d if kind == 'deg' else s) >= x]
         return min(c, key=lambda p: p[0] if kind == 'deg' else p[1]) if c else None
     ref = [least(x) for x in pristine]
-    obj = {'int64': lambda q: np.array(q, dtype=np.int64), 'int32': lambda q: np.array(q, dtype=np.int32),
-           'intp': lambda q: np.array(q, dtype=int), 'list': list, 'tuple': tuple}[cont](pristine)
+    base = None
+    if cont in ('view', 'strided', 'rev', 'ro'):
+        # the object is a window on a larger array of the caller (the elements around it must survive too)
+        if cont == 'view':
+            base = np.array([7001, 7002] + pristine + [7003], dtype=np.int64)
+            obj = base[2:2 + len(pristine)]
+        elif cont == 'strided':
+            base = np.array([x for v in pristine for x in (v, 7005)], dtype=np.int64)
+            obj = base[::2]
+        elif cont == 'rev':
+            base = np.array(pristine[::-1], dtype=np.int64)
+            obj = base[::-1]
+        else:
+            base = np.array(pristine, dtype=np.int64)
+            obj = base.view()
+            obj.setflags(write=False)
+        base0 = base.copy()
+    else:
+        obj = {'int64': lambda q: np.array(q, dtype=np.int64), 'int32': lambda q: np.array(q, dtype=np.int32),
+               'int16': lambda q: np.array(q, dtype=np.int16), 'uint16': lambda q: np.array(q, dtype=np.uint16),
+               'intp': lambda q: np.array(q, dtype=int), 'list': list, 'tuple': tuple}[cont](pristine)
 
     def rgrid(n):
         return OneDGrid(np.array([0.4 * (j + 1) for j in range(n)]), np.ones(n), (0, np.inf))
@@ -331,6 +373,14 @@ def same_object(route, m, kind, cont, req, times, which=0, nat=2):
                                          **{'d_sectors' if kind == 'deg' else 's_sectors': [obj] * nat})
                 got = [shells(g) for g in mg.atgrids]
                 want = None if None in ref else [([ref[which][0]] * 2, [ref[which][1]] * 2)] * nat
+            elif route == 'mixed':
+                # one object through three different entry points, one after the other
+                a = [int(x) for x in ang.AngularGrid.convert_angular_sizes_to_degrees(obj, m)] if kind == 'size' else None
+                g1 = AtomGrid(rgrid(len(pristine)), **{'degrees' if kind == 'deg' else 'sizes': obj}, method=m)
+                g2 = AtomGrid.from_pruned(rgrid(3), 1.0, r_sectors=[bound], **{'d_sectors' if kind == 'deg' else 's_sectors': obj[:2]}, method=m)
+                got = (a, shells(g1), shells(g2))
+                want = None if None in ref else ([r[0] for r in ref] if kind == 'size' else None, ([r[0] for r in ref], [r[1] for r in ref]),
+                                                  ([ref[which][0]] * 3, [ref[which][1]] * 3))
             else:
                 raise SystemExit('unknown route ' + route)
         except ValueError as e:
@@ -344,6 +394,8 @@ def same_object(route, m, kind, cont, req, times, which=0, nat=2):
     now = [int(x) for x in obj]
     if now != pristine:
         problems.append('the argument object itself now holds %r instead of %r' % (now, pristine))
+    if base is not None and not np.array_equal(base, base0):
+        problems.append('the larger array of the caller the argument is a window on changed: %r -> %r' % (base0.tolist(), base.tolist()))
     return problems
 """
 
